@@ -21,19 +21,19 @@ import tables  # noqa: E402
 
 SRC = tables.SRC
 
-CTYPE = {"Bool": "FiBool", "Char": "FiChar", "SInt": "FiSInt", "HInt": "FiHInt", "Byte": "FiByte",
+CTYPE = {"BInt": "FiBInt", "Bool": "FiBool", "Char": "FiChar", "SInt": "FiSInt", "HInt": "FiHInt", "Byte": "FiByte",
          "Word": "FiWord", "Ptr": "FiPtr", "SFlo": "FiSFlo", "DFlo": "FiDFlo"}
 # C type used for the mathematical operand in the harness
-HTYPE = {"Bool": "long", "Char": "long", "SInt": "long", "HInt": "long", "Byte": "long",
+HTYPE = {"BInt": "unsigned long", "Bool": "long", "Char": "long", "SInt": "long", "HInt": "long", "Byte": "long",
          "Word": "unsigned long", "Ptr": "unsigned long", "SFlo": "float", "DFlo": "double"}
 # domain of each operand type (the property's domain: both booleans, the 128 ASCII characters, full machine ranges)
-DOM = {"Bool": "({x} == 0 || {x} == 1)", "Char": "({x} >= 0 && {x} <= 127)", "SInt": "1",
+DOM = {"BInt": "1", "Bool": "({x} == 0 || {x} == 1)", "Char": "({x} >= 0 && {x} <= 127)", "SInt": "1",
        "HInt": "({x} >= -32768 && {x} <= 32767)", "Byte": "({x} >= 0 && {x} <= 255)", "Word": "1", "Ptr": "1",
        "SFlo": "1", "DFlo": "1"}
-NODE_FIELD = {"Bool": "foamBool.BoolData", "Char": "foamChar.CharData", "SInt": "foamSInt.SIntData",
+NODE_FIELD = {"BInt": "foamBInt.BIntData", "Bool": "foamBool.BoolData", "Char": "foamChar.CharData", "SInt": "foamSInt.SIntData",
               "HInt": "foamHInt.HIntData", "Byte": "foamByte.ByteData", "Word": "foamWord.data",
               "SFlo": "foamSFlo.SFloData", "DFlo": "foamDFlo.DFloData", "Ptr": "foamPtr.val"}
-OBJ_FIELD = {"Bool": "fiBool", "Char": "fiChar", "SInt": "fiSInt", "HInt": "fiHInt", "Byte": "fiByte",
+OBJ_FIELD = {"BInt": "fiBInt", "Bool": "fiBool", "Char": "fiChar", "SInt": "fiSInt", "HInt": "fiHInt", "Byte": "fiByte",
              "Word": "fiWord", "Ptr": "fiPtr", "SFlo": "fiSFlo", "DFlo": "fiDFlo"}
 
 W = "((long)((unsigned long)(%s)))"          # two's complement wrap of an unsigned-long expression
@@ -124,9 +124,15 @@ FLOAT_AGREE = ["SFlo0", "SFlo1", "SFloIsZero", "SFloIsNeg", "SFloIsPos", "SFloEQ
                "DFloNegate", "DFloPlus", "DFloMinus", "DFloTimes", "DFloDivide", "DFloTimesPlus",
                "SFloRPlus", "SFloRMinus", "SFloRTimes", "SFloRDivide", "DFloRPlus", "DFloRMinus", "DFloRTimes", "DFloRDivide",
                "SIntToSFlo", "SIntToDFlo", "SFloToDFlo", "DFloToSFlo"]
-AGREE_ONLY = ["CharMin", "CharMax", "SIntGcd", "SIntHashCombine"] + FLOAT_AGREE
+# big-integer builtins: each evaluator must reach the SAME bigint.c operation with the SAME operands in the SAME
+# order; bigint.c itself is an uninterpreted function here (its arithmetic is property C11's business)
+BINT_AGREE = ["BInt0", "BInt1", "BIntIsZero", "BIntIsNeg", "BIntIsPos", "BIntIsEven", "BIntIsOdd", "BIntIsSingle",
+              "BIntEQ", "BIntNE", "BIntLT", "BIntLE", "BIntNegate", "BIntPrev", "BIntNext", "BIntPlus", "BIntMinus",
+              "BIntTimes", "BIntTimesPlus", "BIntLength", "BIntShiftUp", "BIntShiftDn", "BIntShiftRem", "BIntBit",
+              "SIntToBInt"]
+AGREE_ONLY = ["CharMin", "CharMax", "SIntGcd", "SIntHashCombine"] + FLOAT_AGREE + BINT_AGREE
 
-SCALAR = set(CTYPE)
+SCALAR = set(CTYPE)   # (includes BInt: an opaque handle for the agreement obligations)
 
 
 def in_scope(b):
@@ -158,6 +164,11 @@ def rt_expr(b, g, ops, gct):
         return s
     if cfun == "CCO_FCall":
         if spec != 0:
+            # gc0FCall's hand-written special cases (re-expressed from genc.c:gc0FCall)
+            if b["name"] in ("BIntIsEven", "BIntIsOdd"):
+                return "%s(fiBIntMod(%s, fiBIntNew(2)), fiBInt0())" % (s, args[0])
+            if b["name"] in ("BIntPrev", "BIntNext"):
+                return "%s(%s, fiBInt1())" % (s, args[0])
             return None
         return "%s(%s)" % (s, ", ".join(args))
     if cfun == "CCO_Cast":
@@ -201,12 +212,38 @@ static int v_same_d(double x, double y) { unsigned long a, b; memcpy(&a, &x, 8);
 '''
 
 
+BINT_UF = r'''
+/* ---- bigint.c as UNINTERPRETED functions (it is not linked): equal operands give equal results, nothing else ---- */
+#ifndef NATIVE_REPLAY
+unsigned long __CPROVER_uninterpreted_bint1(int op, unsigned long a);
+unsigned long __CPROVER_uninterpreted_bint2(int op, unsigned long a, unsigned long b);
+BInt bint0 = (BInt) 0x1000, bint1 = (BInt) 0x2000;
+BInt  bintNew(long n)            { return (BInt) __CPROVER_uninterpreted_bint1(1, (unsigned long) n); }
+Bool  bintIsNeg(BInt a)          { return __CPROVER_uninterpreted_bint1(2, (unsigned long) a) != 0; }
+Bool  bintIsZero(BInt a)         { return __CPROVER_uninterpreted_bint1(3, (unsigned long) a) != 0; }
+Bool  bintIsPos(BInt a)          { return __CPROVER_uninterpreted_bint1(4, (unsigned long) a) != 0; }
+Bool  bintEQ(BInt a, BInt b)     { return __CPROVER_uninterpreted_bint2(5, (unsigned long) a, (unsigned long) b) != 0; }
+Bool  bintLT(BInt a, BInt b)     { return __CPROVER_uninterpreted_bint2(6, (unsigned long) a, (unsigned long) b) != 0; }
+Bool  bintGT(BInt a, BInt b)     { return __CPROVER_uninterpreted_bint2(7, (unsigned long) a, (unsigned long) b) != 0; }
+BInt  bintNegate(BInt a)         { return (BInt) __CPROVER_uninterpreted_bint1(8, (unsigned long) a); }
+BInt  bintPlus(BInt a, BInt b)   { return (BInt) __CPROVER_uninterpreted_bint2(9, (unsigned long) a, (unsigned long) b); }
+BInt  bintMinus(BInt a, BInt b)  { return (BInt) __CPROVER_uninterpreted_bint2(10, (unsigned long) a, (unsigned long) b); }
+BInt  bintTimes(BInt a, BInt b)  { return (BInt) __CPROVER_uninterpreted_bint2(11, (unsigned long) a, (unsigned long) b); }
+BInt  bintMod(BInt a, BInt b)    { return (BInt) __CPROVER_uninterpreted_bint2(12, (unsigned long) a, (unsigned long) b); }
+Length bintLength(BInt a)        { return (Length) __CPROVER_uninterpreted_bint1(13, (unsigned long) a); }
+Bool  bintBit(BInt a, Length ix) { return __CPROVER_uninterpreted_bint2(14, (unsigned long) a, (unsigned long) ix) != 0; }
+BInt  bintShift(BInt a, int n)   { return (BInt) __CPROVER_uninterpreted_bint2(15, (unsigned long) a, (unsigned long) (long) n); }
+BInt  bintShiftRem(BInt a, int n){ return (BInt) __CPROVER_uninterpreted_bint2(16, (unsigned long) a, (unsigned long) (long) n); }
+#endif
+'''
+
+
 def cmp_expr(ty, got, want):
     if ty == "SFlo":
         return "v_same_f((float)(%s), (float)(%s))" % (got, want)
     if ty == "DFlo":
         return "v_same_d((double)(%s), (double)(%s))" % (got, want)
-    if ty in ("Ptr", "Word"):
+    if ty in ("Ptr", "Word", "BInt"):
         return "((unsigned long)(%s) == (unsigned long)(%s))" % (got, want)
     return "((long)(%s) == (long)(%s))" % (got, want)
 
@@ -289,7 +326,7 @@ def gen_fold(bs, have_rt):
             st = NODE_FIELD[t].split(".")[0]
             fld = NODE_FIELD[t].split(".")[1]
             o.append("\t{ struct %s s; Foam n = v_node(sizeof s); memset(&s, 0, sizeof s); s.hdr.tag = FOAM_%s; s.hdr.argc = 1; s.%s = %s%s; n->%s = s; sb.argv[%d] = n; }" % (
-                st, t, fld, "(Foam) " if t == "Ptr" else "", v, st, i))
+                st, t, fld, "(Foam) " if t == "Ptr" else ("(BInt) " if t == "BInt" else ""), v, st, i))
         o.append("\tFoam bc = v_node(sizeof sb); bc->foamBCall = sb;")
         o.append("\tFoam r = cfoldBCall(bc);")
         o.append("\t__CPROVER_assert(r == bc, \"VCOVER fold %s: the folder rewrites this builtin\");" % name
@@ -442,6 +479,14 @@ CANARY = {
 }
 
 
+# canaries for the agreement-only (big integer) obligations: the C-runtime expression deliberately wrong
+CANARY_RT = {
+    "BIntMinus": "fiBIntMinus(x1, x0)",        # operands swapped
+    "BIntShiftDn": "fiBIntShiftUp(x0, x1)",    # wrong direction
+    "BIntNext": "fiBIntPlus(x0, fiBInt0())",   # wrong constant
+}
+
+
 def generate(outdir):
     os.makedirs(outdir, exist_ok=True)
     fb = tables.foam_bvals()
@@ -452,16 +497,18 @@ def generate(outdir):
     wr, have_rt = gen_rt_wrappers(bs, gb, ops, gct)
     tail = "\n#ifdef NATIVE_REPLAY\nV_NATIVE_MAIN(ENTRY)\n#endif\n"
     with open(os.path.join(outdir, "gen_fold.c"), "w") as f:
-        f.write(FOLD_HEAD + COMMON + wr + gen_fold(bs, have_rt) + tail)
+        f.write(FOLD_HEAD + COMMON + BINT_UF + wr + gen_fold(bs, have_rt) + tail)
     with open(os.path.join(outdir, "gen_fint.c"), "w") as f:
-        f.write(FINT_HEAD + COMMON + wr + gen_fint(bs, have_rt) + tail)
+        f.write(FINT_HEAD + COMMON + BINT_UF + wr + gen_fint(bs, have_rt) + tail)
     with open(os.path.join(outdir, "gen_rt.c"), "w") as f:
-        f.write(RT_HEAD + COMMON + wr + gen_rt(bs, have_rt) + tail)
+        f.write(RT_HEAD.replace('#include <string.h>', '#include <string.h>\n#include "bigint.h"') + COMMON + BINT_UF + wr + gen_rt(bs, have_rt) + tail)
     # canary copies: same harnesses, SPEC overridden for the canary ops only
     saved = dict(SPEC)
     try:
         SPEC.update(CANARY)
-        cbs = [b for b in bs if b["name"] in CANARY]
+        cbs = [b for b in bs if b["name"] in CANARY or b["name"] in CANARY_RT]
+        for nm, ex in CANARY_RT.items():
+            wr = re.sub(r"(static \w+ rt_%s\([^)]*\) \{ return )[^;]*;" % nm, lambda m: m.group(1) + ex + ";", wr)
         with open(os.path.join(outdir, "gen_fold_canary.c"), "w") as f:
             f.write(FOLD_HEAD + COMMON + wr + gen_fold(cbs, have_rt) + tail)
         with open(os.path.join(outdir, "gen_fint_canary.c"), "w") as f:
